@@ -48,7 +48,7 @@ Theorem cell_expansion ty W data x y :
   cell_at (zlen data) (znth 0 data) ty W x y =
   if covered ty W (zlen data) x y then Some (expansion ty W data x y) else None.
 Proof.
-  intros HW Hx Hy Hd. unfold cell_at, covered, expansion.
+  intros HW Hx Hy Hd. unfold cell_at, covered, expansion, expansion_p.
   assert (Hk : 0 <= y * W + x) by nia.
   destruct (Z.eqb_spec ty 1) as [->|N1].
   { unfold rgb_at.
@@ -67,7 +67,7 @@ Proof.
   destruct (Z.eqb_spec ty 2) as [->|N2].
   { unfold gray_at, gdiv, gmod. rewrite Z.quot_div_nonneg, Z.rem_mod_nonneg by lia.
     destruct ((y * W + x) / 2 <? zlen data); [|reflexivity].
-    unfold nibble_at.
+    unfold nibble_get.
     pose proof (data_ok_znth data ((y * W + x) / 2) Hd) as Hb.
     set (b := znth 0 data ((y * W + x) / 2)) in *.
     replace (Z.land (Z.shiftr b 4) 15) with (b / 16)
@@ -83,6 +83,9 @@ Proof.
   replace ((0 <=? y * ((W + 7) / 8) + x / 8) && (y * ((W + 7) / 8) + x / 8 <? zlen data)) with (y * ((W + 7) / 8) + x / 8 <? zlen data) by nia.
   destruct (y * ((W + 7) / 8) + x / 8 <? zlen data); reflexivity.
 Qed.
+
+Lemma rgba_eqb_refl c : rgba_eqb c c = true.
+Proof. destruct c as [[[a b] c] d]. unfold rgba_eqb. rewrite !Z.eqb_refl. reflexivity. Qed.
 
 (* ---------- each routine ---------- *)
 (* RwpImgToImage: declared canvas size; covered image pixels that land on the canvas show the
@@ -146,7 +149,8 @@ Proof.
     destruct (Z.gtb_spec ((gw g + 7) / 8 * gh g) (zlen (pad_mono (gw g) (gh g) (gdata g)))); try lia.
     cbn [fst idata ig gwib]. unfold to_image_at.
     replace (r_in (gw g) (gh g) x y) with true by (unfold r_in; lia).
-    rewrite to_image_bit by lia. rewrite px_pad_mono by (auto; lia). unfold expansion. cbn [Z.eqb].
+    rewrite to_image_bit by lia. rewrite px_pad_mono by (auto; lia). unfold expansion, expansion_p. cbn [Z.eqb].
+    change (Z.testbit (znth 0 (gdata g) (y * ((gw g + 7) / 8) + x / 8)) (7 - x mod 8)) with (px ((gw g + 7) / 8) (gdata g) x y).
     destruct (px ((gw g + 7) / 8) (gdata g) x y); reflexivity.
   - cbn [Z.eqb]. unfold img_from_at. replace (r_in (gw g) (gh g) x y) with true by (unfold r_in; lia).
     rewrite cell_expansion by (auto; lia). rewrite Hc. reflexivity.
@@ -169,8 +173,7 @@ Proof.
   unfold agree_ok. apply all_rect_intro. intros x y Hx Hy.
   destruct (covered (gtype g) (gw g) (zlen (gdata g)) x y) eqn:Hc; [|reflexivity].
   destruct (r_in width height _ _) eqn:Hin; [|reflexivity]. cbn [andb negb orb].
-  rewrite P1, P2 by (auto; lia).
-  destruct (expansion _ _ _ x y) as [[[a b] c] d]. unfold rgba_eqb. rewrite !Z.eqb_refl. reflexivity.
+  rewrite P1, P2 by (auto; lia). apply rgba_eqb_refl.
 Qed.
 
 Theorem expansion_ok_rwp g width height :
@@ -182,11 +185,11 @@ Theorem expansion_ok_rwp g width height :
                   else expansion (gtype g) (gw g) (gdata g) x y) = true.
 Proof.
   intros Hw Hh Hd. destruct (rwp_expansion g width height Hw Hh Hd) as (r & E & _ & _ & P).
-  exists r. split; auto. unfold expansion_ok. apply all_rect_intro. intros x y Hx Hy.
+  exists r. split; auto. unfold expansion_ok, expansion_ok_p. apply all_rect_intro. intros x y Hx Hy.
   destruct (covered _ _ _ x y) eqn:Hc; [|reflexivity]. cbn [negb orb].
   destruct (r_in width height _ _) eqn:Hin.
-  - rewrite P by (auto; lia). destruct (expansion _ _ _ x y) as [[[a b] c] d]. unfold rgba_eqb. rewrite !Z.eqb_refl. reflexivity.
-  - destruct (expansion _ _ _ x y) as [[[a b] c] d]. unfold rgba_eqb. rewrite !Z.eqb_refl. reflexivity.
+  - rewrite P by (auto; lia). apply rgba_eqb_refl.
+  - apply rgba_eqb_refl.
 Qed.
 
 Theorem expansion_ok_gfx g :
@@ -196,9 +199,9 @@ Theorem expansion_ok_gfx g :
     expansion_ok (gtype g) (gw g) (gh g) (gdata g) (rat r) = true.
 Proof.
   intros Hw Hh Hd Hty. destruct (gfx_state_expansion g Hw Hh Hd Hty) as (r & E & A & B & P).
-  exists r. split; auto. split; auto. split; auto. unfold expansion_ok. apply all_rect_intro. intros x y Hx Hy.
+  exists r. split; auto. split; auto. split; auto. unfold expansion_ok, expansion_ok_p. apply all_rect_intro. intros x y Hx Hy.
   destruct (covered _ _ _ x y) eqn:Hc; [|reflexivity]. cbn [negb orb].
-  rewrite P by (auto; lia). destruct (expansion _ _ _ x y) as [[[a b] c] d]. unfold rgba_eqb. rewrite !Z.eqb_refl. reflexivity.
+  rewrite P by (auto; lia). apply rgba_eqb_refl.
 Qed.
 
 (* F15 (repaired in /repo 645e4d4): MONO 16x4 with 3 bytes of data - the PNG route used to show
